@@ -6,4 +6,4 @@ INIT Init
 NEXT MCNext
 VIEW View
 INVARIANTS NoPanic TypeOK LentIffInCall Lazy RowsPrefix RowsFinal SemFinal Report
-CHECK_DEADLOCK FALSE
+CHECK_DEADLOCK TRUE
